@@ -300,7 +300,7 @@ func c04Loopback(c *Ctx) {
 			if err != nil {
 				c.Res.Violate("C04:loopback:listen:stop-error", "Listen returned an error when stopped while the event callback was busy: "+err.Error(), nil, int64(i))
 			}
-		case <-time.After(10 * time.Second):
+		case <-liveAfter(10 * time.Second):
 			c.Res.Inconcl("listener did not stop within 10 s of the signal (callback busy)")
 		}
 		sender.Wait()
@@ -350,7 +350,7 @@ func c04Loopback(c *Ctx) {
 		q <- os.Interrupt
 		select {
 		case <-done:
-		case <-time.After(10 * time.Second):
+		case <-liveAfter(10 * time.Second):
 			c.Res.Inconcl("listener on the wildcard address did not stop within 10 s of the signal")
 		}
 		c.Res.Eval(1)
@@ -415,7 +415,7 @@ func c04Loopback(c *Ctx) {
 		q <- os.Interrupt
 		select {
 		case <-done:
-		case <-time.After(10 * time.Second):
+		case <-liveAfter(10 * time.Second):
 			c.Res.Inconcl("listener did not stop within 10 s of the signal")
 		}
 		conn.Close()
